@@ -235,9 +235,12 @@ pub fn evaluate(prop: &dyn Property, cases: &[Value], py: &mut Py, stats: &mut S
     }
     let mut out = Vec::with_capacity(cases.len());
     for (i, unit) in units.into_iter().enumerate() {
-        let j = prop
-            .judge(&cases[i], &unit, &statuses[i], &probe_results[i], py)
-            .map_err(Infra)?;
+        // shrinker candidates that are not even well-formed cases are not judged
+        let j = if unit.outcome == Outcome::Invalid {
+            Judged::default()
+        } else {
+            prop.judge(&cases[i], &unit, &statuses[i], &probe_results[i], py).map_err(Infra)?
+        };
         let mut violations = unit.violations.clone();
         violations.extend(j.violations);
         let mut classes = unit.classes.clone();
